@@ -369,13 +369,13 @@ pub fn run(ctx: &Ctx) -> i32 {
         "C05" => msg_family(ctx, true, "fam_msg_s2",
             "(c) for every part and kind of every generated program: <ep>_messages() strictly ascending and equal, as a set, to the top-level keys obtained by serialising one value of every variant. Non-trivial = list with >=2 names or a digit-bearing name.",
             &[A_NATIVE, A_DOMAIN]),
-        "C07" => reply_family(ctx, false, "fam_reply",
+        "C07" => reply_family(ctx, true, "fam_reply",
             "fam_reply programs; `cases` replies per program: every declared id and ids belonging to no handler, Ok(SubMsgResponse{0..3 events, data by class, 0..2 msg responses}) / Err(text), any gas_used, payload built by the generated sub-message builder or garbage; through sv::dispatch_reply and the generated reply entry point; reference model computed from the program model: covered outcome => exactly the declared method runs once with the documented arguments and context (gas, env, storage; events/msg responses for success methods), uncovered success => events+data passed through, uncovered failure => that error as the contract's error, unknown id / undecodable payload => error and no handler. Non-trivial = uncovered outcome or an `always` handler.",
             &[A_ECHO, A_NATIVE, A_REPLY, "valid payload bytes are obtained from the generated builder (its agreement with dispatch is C08)"]),
-        "C08" => reply_family(ctx, false, "fam_reply",
+        "C08" => reply_family(ctx, true, "fam_reply",
             "fam_reply programs; ids of distinct handler names pairwise distinct; per handler name `cases` tuples (receiver in {SubMsg with arbitrary id/gas limit/reply_on/payload, WasmMsg, CosmosMsg of every kind}, payload values): builder result compared field-wise with the model (id constant, reply_on from the set of covered outcomes, wrapped message unchanged, gas limit kept / None, raw payload byte for byte) and then dispatched back through dispatch_reply where the handler must receive equal payload values. Non-trivial = >=2 typed payload values or a raw payload with non-UTF-8 bytes.",
             &[A_ECHO, A_NATIVE, A_REPLY]),
-        "C09" => reply_family(ctx, false, "fam_reply",
+        "C09" => reply_family(ctx, true, "fam_reply",
             "fam_reply programs; for every success handler `cases` replies whose data is drawn from the classes absent / well-formed / envelope-malformed (length overrun, wrong wire type, oversized varint, truncated) / JSON-malformed (wrong type, truncated, trailing bytes) / envelope without inner data / envelope of the other kind / random bytes; expected outcome from the data-mode table in the rustdoc of `contract`, using an independent protobuf writer, cw_utils' parsers as the envelope reference and the data type's own serde impl; any failure must be Err with an empty call log. Non-trivial = handler with a data marker (distinct by row, data bytes).",
             &[A_ECHO, A_NATIVE, A_REPLY, "the cell `opt` marker + well-formed envelope without inner data is not specified by the documentation: either None delivered or a missing-data error is accepted"]),
         "C10" => msg_family(ctx, true, "fam_msg_s2",
@@ -395,6 +395,24 @@ pub fn run(ctx: &Ctx) -> i32 {
             out.assumptions = vec!["token-level comparison: whitespace and comment formatting are not part of the comparison (doc comments are, as #[doc] attributes)".into(), "surface items are not type-checked (engine E1 only expands)".into()];
             match crate::e1::expander_exe() {
                 Ok(exe) => crate::c13::run(ctx, &exe, &mut out),
+                Err(e) => out.inconclusive = Some(e),
+            }
+            out
+        }
+        "C14" => {
+            let mut out = Outcome { rule: "(a) metamorphic, engine E1: a valid program P (fam_msg or fam_reply incl. error-declared-before-success tables, random override declarations) and a twin P' with contract methods, interface declarations, interface methods, sv::msg_attr and sv::override_entry_point declarations permuted; both must be accepted, and the canonical forms of the contract, interface and entry_points expansions must be equal (canonical = enum variants, impl/trait items, match arms, array elements, module items and the wrapper's deserialisation attempts sorted; *_REPLY_ID values dropped). Non-trivial = permutation is not the identity and the program has >=2 interfaces or a handler name served by two methods.".into(), ..Default::default() };
+            out.assumptions = vec!["token-level comparison of expansions; the behaviour of generated code for every single order is covered by C01-C09 on compiled programs".into(), A_DOMAIN.into(), A_REPLY.into()];
+            match crate::e1::expander_exe() {
+                Ok(exe) => crate::c14::run(ctx, &exe, &mut out),
+                Err(e) => out.inconclusive = Some(e),
+            }
+            out
+        }
+        "C18" => {
+            let mut out = Outcome { rule: format!("(a) engine E1: catalogue of {} single rule-breaking edits, each applied to random valid base programs (the unedited base must be accepted, the edited program must produce an error diagnostic; a macro panic counts as a violation); plus exhaustively all reply tables of <=3 methods over 2 handler names x 3 outcomes in every declaration order: rejected iff two methods claim the same (name, outcome) with always = both. Non-trivial = every edited program (distinct by rule x base program) and every table.", crate::c18::RULES.len()), ..Default::default() };
+            out.assumptions = vec!["engine E1 observes accepted / rejected / panic, not the diagnostic text or span (rustc-level wording and location are out of reach of in-process expansion)".into(), "expansion server built with sylvia-derive features mt,cosmwasm_1_2 (what sylvia's `mt` feature enables)".into()];
+            match crate::e1::expander_exe() {
+                Ok(exe) => crate::c18::run(ctx, &exe, &mut out),
                 Err(e) => out.inconclusive = Some(e),
             }
             out
